@@ -115,7 +115,7 @@ class Explorer:
         ctx = self.ctx
         if "C01" in self.props:
             # library's own assess on the trace's own choices
-            fs = set(node.features() & {"zero_length", "mask_concrete_false"})
+            fs = set(node.features() & {"zero_length", "mask_concrete_false", "switch_concrete_idx"})
             if self.space.static_args and node.kind == "mask" and state.args and state.args[0] is False:
                 fs.add("mask_concrete_false")
             feats = sorted(fs)
